@@ -1279,6 +1279,9 @@ func enumerateStopPoint(p *Plan, seed uint64) {
 		{Kind: AStopCtx, CtxCancelAt: 300 * ms},
 		{Kind: AStop},
 		{Kind: AStop},
+		// the caller's context is cancelled while the call waits for a slow OnDemote / before it deletes
+		{Kind: AStopCtx, WaitForDemote: true, CtxCancelAt: 300 * ms},
+		{Kind: AStopCtx, DeleteKey: true, CtxCancelAt: 1 * ms},
 	}
 	k := seed
 	opn := int(k%16) + 1
